@@ -703,4 +703,4 @@ package types
 // is what C08 proves of EqualType (the `where` clause repeats the postcondition C08.top).
 //@ spec eqT(a SessionType, b SessionType, D Set[string], V Arr[string]LabelledType) bool where result && !is(a, LabelType) && !is(b, LabelType) ==> headOK(a, b)
 //@ contract EqualType
-//@   defines eqT(type1, type2, dom(labelledTypesEnv), vals(labelledTypesEnv))
+//@   defines[C07] eqT(type1, type2, dom(labelledTypesEnv), vals(labelledTypesEnv))
